@@ -1,7 +1,8 @@
 (* C16 — property theorems only. Each is closed by `exact <lemma>` and followed by Print Assumptions; Examples are non-vacuity. *)
 From Coq Require Import ZArith List Bool Reals.
-From GeosV Require Import Lib.KernelDefs Lib.GenPreludeF C16.Defs C16.B64Defs C16.InCircle C16.Mesh C16.Voronoi C16.B64.
-From GeosV Require Gen.TP_isInCircleRobust Gen.TP_isInCircleNonRobust.
+From GeosV.Lib Require Import KernelDefs GenPreludeF.
+From GeosV.C16 Require Import Defs B64Defs InCircle Mesh Voronoi B64.
+From GeosV.Gen Require TP_isInCircleRobust TP_isInCircleNonRobust.
 Import ListNotations.
 Local Open Scope Z_scope.
 
@@ -146,6 +147,12 @@ Theorem C16_incircle_b64_cocircular : forall q p r t, bounded25 q -> bounded25 p
   incircle q p r t = 0 -> robust_grid q p r t = 1.
 Proof. exact robust_grid_cocircular. Qed.
 Print Assumptions C16_incircle_b64_cocircular.
+(* the error band, precisely: outside  2^53 |incircle| <= 12 * (sum of absolute products)  the answer is the exact one *)
+Theorem C16_incircle_b64_band : forall q p r t, bounded25 q -> bounded25 p -> bounded25 r -> bounded25 t ->
+  12 * geos_band q p r t < 2 ^ 53 * Z.abs (geos_incircle q p r t) ->
+  robust_grid q p r t = 1 + Z.sgn (geos_incircle q p r t).
+Proof. exact robust_grid_complete. Qed.
+Print Assumptions C16_incircle_b64_band.
 (* FULL STATEMENT (refuted): robust_grid q p r t = 1 -> incircle q p r t = 0 on the 2^25 grid.  Witness: *)
 Theorem C16_incircle_b64_exact_refuted :
   bounded25 wq /\ bounded25 wp /\ bounded25 wr /\ bounded25 wt /\ 0 < det wq wp wr /\
@@ -162,6 +169,9 @@ Theorem C16_delaunay_by_robust_predicate_refuted :
   /\ exists t s, In t (map tri_ccw w_tris) /\ In s w_sites /\ 0 < tri_incircle t s.
 Proof. exact delaunay_by_robust_predicate_refuted. Qed.
 Print Assumptions C16_delaunay_by_robust_predicate_refuted.
+Example ex_b64_band : 12 * geos_band (0, 0) (4, 0) (0, 4) (1, 1) < 2 ^ 53 * Z.abs (geos_incircle (0, 0) (4, 0) (0, 4) (1, 1))
+  /\ 2 ^ 53 * Z.abs (geos_incircle wq wp wr wt) < 9 * geos_band wq wp wr wt.
+Proof. vm_compute. split; reflexivity. Qed.
 Example ex_b64_decided : robust_grid (0, 0) (4, 0) (0, 4) (1, 1) = 0 /\ robust_grid (0, 0) (4, 0) (0, 4) (4, 4) = 1
   /\ robust_grid (0, 0) (4, 0) (0, 4) (5, 5) = 2 /\ bounded25 (33554432, -33554432).
 Proof. unfold bounded25. vm_compute. repeat split; congruence. Qed.
